@@ -227,6 +227,7 @@ def _plain(state, sub, hard):
 def run(ctx):
   if (ctx.shard or 0) == 0:
     c02.enumerate_single(ctx, execute, extra={'lag': 0})
+    c02.enumerate_prefilled(ctx, execute, extra={'lag': 0})
   n_c, n_s = (230, 100) if ctx.quick else (900, 400)
   for i, s in enumerate(cachesim.STRATEGIES):
     run_given(ctx, cases(s, True), execute, n_c, salt=50 + i)
